@@ -214,6 +214,40 @@ def setInKid : List Node → Nat → Nat → Nat → Val → St → St
   | _ :: ns, base, j + 1, i, v, σ => setInKid ns (base + 1) j i v σ
 end
 
+/-! ## the setter with its refusals (`InputData.value = v`: lock check → type check → forward → store) -/
+
+/-- `valid_value(v, hint)` on the hint chain of the model: constants `c n` with `n ≥ 1000` stand for
+`int` objects, which `str | tuple` (code 1) does not admit; `NOT_DATA` is never checked -/
+def admits (h : Nat) : Val → Bool
+  | .c n => !(h == 1 && decide (1000 ≤ n))
+  | _ => true
+
+mutual
+/-- assign `v` to input `k` of the instance of `n` at path `p`. `lk q`: the node at path `q` is marked
+running, its inputs are locked. Returns the state and whether the assignment was accepted; on a refusal
+the exception propagates up the chain of forwarding setters, so whoever has not stored yet never does.
+`sf` (store first) is NOT the code: it is the order check → STORE → forward, kept for the witness. -/
+def pushIn (sf : Bool) (lk : Path → Bool) : Path → Node → St → Nat → Val → St × Bool
+  | p, .leaf _ _, σ, k, v => if lk p then (σ, false) else (σ.set .inp k v, true)
+  | p, .mac args body rets _ _, σ, k, v =>
+    if lk p then (σ, false)
+    else if !admits (args.getD k ⟨.nd, 0⟩).hint v then (σ, false)
+    else
+      match link body rets k with
+      | .ui => ((σ.set .inp k v).set .uiIn k v, true)     -- the UI input carries the same hint
+      | .gone => (σ.set .inp k v, true)
+      | .child j i =>
+        let σ0 := if sf then σ.set .inp k v else σ
+        let r := pushKid sf lk p body 0 j i v σ0
+        if r.2 then (r.1.set .inp k v, true) else (r.1, false)
+def pushKid (sf : Bool) (lk : Path → Bool) (p : Path) : List Node → Nat → Nat → Nat → Val → St → St × Bool
+  | [], _, _, _, _, σ => (σ, true)
+  | n :: _, base, 0, i, v, σ =>
+    let r := pushIn sf lk (p ++ [base]) n (σ.sub base) i v
+    (σ.graft base r.1, r.2)
+  | _ :: ns, base, j + 1, i, v, σ => pushKid sf lk p ns (base + 1) j i v σ
+end
+
 /-! ## construction -/
 
 /-- keyword arguments that are plain values: `Child(a=v)` assigns after the child is set up -/
@@ -437,6 +471,19 @@ def nodeAt : Node → Path → Option Node
     match body[j]? with
     | some m => nodeAt m p
     | none => none
+
+/-- put `τ` in place of the state of the node at `p` -/
+def St.putAt (σ : St) : Path → St → St
+  | [], τ => τ
+  | j :: p, τ => σ.graft j ((σ.sub j).putAt p τ)
+
+/-- `node_at_p.inputs[k].value = v` with refusals -/
+def pushInAt (lk : Path → Bool) (n : Node) (σ : St) (p : Path) (k : Nat) (v : Val) : St × Bool :=
+  match nodeAt n p with
+  | some m =>
+    let r := pushIn false lk p m (σ.atPath p) k v
+    (σ.putAt p r.1, r.2)
+  | none => (σ, true)
 
 /-- apply `f` to the state of the node at `p` (no effect outside: what a set on an INPUT does) -/
 def St.modAt (σ : St) : Path → (St → St) → St
